@@ -80,6 +80,18 @@ CHECKS = {
         technique="Lean 4 proof (polynomial identities, omega over the calendar, kernel-evaluated finite table) + differential correspondence + round-trip/continuity oracles",
         ref="5/C04",
     ),
+    "C05": dict(
+        text="An operation-for-operation soft-binary64 model (Lean 4, exact rationals) of getJulianDate, getCalendarDate, days2mdh, julianDateToDatetime, "
+             "the ScenarioTime/JulianDate conversions, getTargetJulianDate and the step count of propagateTo, tied to the code BIT FOR BIT "
+             "(float.as_integer_ratio == model rational) on every generated instant, offset and timed run. Proved so far: the rounding library "
+             "(exactness, half-ulp error, grid membership, monotonicity within a binade for the model's rn, for all rationals) and machine-checked witnesses of the repaired and "
+             "unrepaired second-recovery rules; the universally quantified round-trip/monotonicity/step-count theorems are being added on top of that library "
+             "(partial until then). The property itself is evaluated on the real code for every case (round trip, strict monotonicity, offset error, floor(D/step) steps, epochs).",
+        note=BASE_TB + "IEEE-754 binary64 round-to-nearest-even for + - * / and exact floor on the host (checked bit for bit on every case); CPython datetime arithmetic; "
+             "propagateTo is driven on a stand-in scenario that only ticks the real ScenarioClock.",
+        technique="Lean 4 soft-float model with bit-exact differential correspondence; rounding lemmas proved, property theorems partial",
+        ref="5/C05",
+    ),
 }
 
 PLANNED = {}
